@@ -3,7 +3,7 @@ import json
 import os
 import time
 
-from . import facts, matrix, rules_decl, rules_val, rules_pair, rules_struct
+from . import facts, matrix, rules_decl, rules_val, rules_pair, rules_struct, rules_wl
 from .model import LDG, LUG, DMG, UMG, DWG, UWG
 from .model import Model
 from .report import EVIDENCE, Finding, RuleResult, finish
@@ -137,6 +137,31 @@ def c16(m, tier):
         {'F-PAIR.N': 80, 'F-PAIR.T': 35, 'F-PAIR.M': 30, 'F-PAIR.L': 60})
 
 
+def c11(m, tier):
+    wl, bound, heap = rules_wl.run_searches(m, {'S-BFS', 'S-BFS-ALL'})
+    wl.require_sites(100, 'schema facts')
+    return [wl, rules_wl.rule_wrappers(m), rules_val.rule_val(m, val_engine(m))]
+
+
+def c12(m, tier):
+    wl, bound, heap = rules_wl.run_searches(m, {'S-LC'})
+    wl.require_sites(20, 'schema facts')
+    heap.require_sites(6, 'heap facts')
+    return [wl, heap]
+
+
+def c19(m, tier):
+    wl, bound, heap = rules_wl.run_searches(m, {'S-BFS', 'S-BFS-ALL', 'S-LC'})
+    bound.require_sites(60, 'counting facts')
+    heap.require_sites(6, 'heap facts')
+    return [bound, heap]
+
+
+_WL_TB = ['the textbook theorems for the schemas (BFS computes hop distances and parents; label-correcting search with '
+          'strict relaxation terminates with exact distances for non-negative weights; insert-once implies at most V '
+          'scans; minimum-first removal implies every vertex is final at its first removal)', 'completeness of the '
+          'schema fact list in bgcheck/rules_wl.py', 'bgx / clang CFG']
+
 _STRUCT_TB = ['clang CFG and post-dominator based control dependence', 'bgx', 'the event vocabulary and benign-guard '
               'table of bgcheck/rules_pair.py', 'std::list / std::unordered_map member semantics (remove, erase, clear, '
               'operator[])']
@@ -203,6 +228,34 @@ PROPERTIES = {
                     'count / total adjusted once per removed copy (once-per-pair in the undirected family) and the label '
                     'kept (dedupe form of F-PAIR.N/.T/.M/.L).',
         assumptions=['all copies of a pair carry the same label (stated in the property)'], trusted_base=_STRUCT_TB),
+    'C11': dict(
+        level='other', fn=c11,
+        explanation='Decides conformance of findVertexPredecessors to the schema S-BFS and of findAllVertexPredecessors '
+                    'to S-BFS-ALL on dataflow facts: FIFO worklist initialised with the validated source, exactly one '
+                    'removal and one neighbourhood scan of the removed vertex per iteration, insertion of the scanned '
+                    'neighbour under a marker test that is falsified for the same vertex in the guarded region, '
+                    'dist[v]=dist[u]+1 and the predecessor update in that region, sentinel initialisation sized by '
+                    'getSize(), frame conditions; and the wrapper / reconstruction structure (F-WRAP). For a conforming '
+                    'loop "dist = hop count, pred = in-neighbour one hop closer, preds = all such" is the textbook '
+                    'theorem. Correctness of the stack enumeration of all parent chains is not decided.',
+        assumptions=['the schema fact list is complete for the theorem'], trusted_base=_WL_TB),
+    'C12': dict(
+        level='other', fn=c12,
+        explanation='Decides conformance of findGeodesicsDijkstra (both weighted classes) to the label-correcting schema '
+                    'S-LC: +infinity / sentinel initialisation, source 0 and own predecessor, one removal and one scan per '
+                    'iteration, candidate = dist[u] + getEdgeWeight(u,v) for exactly (u,v), strict guard cand < dist[v] '
+                    'with dist[v]=cand, pred[v]=u and the insertion in one region, frame; plus heap discipline (F-HEAP: one '
+                    'comparator ordering by distance with the minimum on top, HEAP/DIRTY typestate). Strictness gives '
+                    'termination with zero-weight cycles. Floating-point rounding is not decided.',
+        assumptions=['non-negative finite weights'], trusted_base=_WL_TB),
+    'C19': dict(
+        level='other', fn=c19,
+        explanation='Decides a structural proof of the stated work bounds: each loop iteration removes exactly one '
+                    'worklist element and scans exactly one neighbourhood; in the two BFS variants a vertex is inserted '
+                    'only under a marker test falsified in the same region (each vertex inserted at most once => at most '
+                    'V scans); in Dijkstra insertion happens only on strict improvement and the removal is minimum-first '
+                    '(F-HEAP) so every vertex is final at its first removal (=> at most E+1 scans).',
+        assumptions=['non-negative weights for the Dijkstra bound'], trusted_base=_WL_TB),
     'C07': dict(
         level='other', fn=c07,
         explanation='Decides, for every public entry point and every vertex argument, on every CFG path (all flag '
